@@ -35,25 +35,43 @@ def _check_scipy_version() -> bool:
     return version.parse(scipy.__version__) >= version.parse(MIN_SCIPY_VERSION)
 
 
-def _max_violation(problem: Problem, variables: list, values: dict[str, float]) -> float:
+def _max_violation(
+    problem: Problem, variables: list, values: dict[str, float], lp_data: Any = None
+) -> float:
     """Largest violation of the problem's constraints and bounds at `values`
-    beyond the tolerance atol + rtol * max(1, |value|) (0.0 if there is none)."""
+    beyond the tolerance atol + rtol * max(1, |value|) + row_rtol * (|a|.|x| + |b|)
+    (0.0 if there is none)."""
     import numpy as np
 
     atol = rtol = 1e-6
+    # A residual is computed from terms of size |a_j x_j| and |b|: whatever is
+    # below their rounding noise is not a violation (rows of magnitude 1e10 and
+    # more cannot be met to 1e-6 in double precision).
+    row_rtol = 1e-9
+    x_abs = np.abs(np.array([values[v.name] for v in variables], dtype=float))
+    i_ub = i_eq = 0
     worst = 0.0
     for constraint in problem.constraints:
         with np.errstate(all="ignore"):
             value = constraint.evaluate(values)
         if not np.isfinite(value):
             return float("inf")
+        magnitude = 0.0
+        if lp_data is not None:
+            if constraint.sense == "==":
+                row, rhs = lp_data.A_eq[i_eq], lp_data.b_eq[i_eq]
+                i_eq += 1
+            else:
+                row, rhs = lp_data.A_ub[i_ub], lp_data.b_ub[i_ub]
+                i_ub += 1
+            magnitude = float(np.abs(row) @ x_abs + abs(rhs))
         if constraint.sense == "<=":
             violation = value
         elif constraint.sense == ">=":
             violation = -value
         else:
             violation = abs(value)
-        if violation > atol + rtol * max(1.0, abs(value)):
+        if violation > atol + rtol * max(1.0, abs(value)) + row_rtol * magnitude:
             worst = max(worst, violation)
     for var in variables:
         x = values[var.name]
@@ -237,7 +255,7 @@ def solve_lp(
     # model itself (same rule as the SciPy route): extraction gaps, or HiGHS
     # dropping coefficients below its 1e-9 threshold, must not surface as OPTIMAL.
     if status == SolverStatus.OPTIMAL and values:
-        max_violation = _max_violation(problem, variables, values)
+        max_violation = _max_violation(problem, variables, values, lp_data)
         if max_violation > 0.0:
             status = SolverStatus.FAILED
             result.message = (
